@@ -80,6 +80,19 @@ func c16Eval(t tb, c cfgCase) {
 			ob.cleanup()
 			col.Label("binary-exit-status-checked")
 		}
+		// --quiet changes what is printed, never what is decided or written
+		qf := f
+		qf.Quiet = true
+		if qspec, err := singleFile(c.C, c.Style, qf); err == nil {
+			oq := runInproc(qspec)
+			if (oq.Res.Exit == 0) != (o.Res.Exit == 0) || !bytes.Equal(oq.Out, o.Out) {
+				oq.cleanup()
+				o.cleanup()
+				violation(t, "quiet-changes-the-decision", fmt.Sprintf("flags [%s]: exit %d and %d bytes written, with --quiet in addition: exit %d and %d bytes", f.String(), o.Res.Exit, len(o.Out), oq.Res.Exit, len(oq.Out)), cc)
+				return
+			}
+			oq.cleanup()
+		}
 		v := observeVerdict(o)
 		sort.Strings(v.Cycles)
 		obs = append(obs, v)
